@@ -58,7 +58,7 @@ PAIR_NAMES = [('uuid', 'uuid2'), ('uuid', 'uuid_in_list'), ('uuid_in_dict', 'mpr
               ('fits_exactly', 'tiny3'), ('reentrant', 'reentrant'), ('oldstyle', 'uuid'), ('h_re_sub', 'h_re'),
               ('comment_wrapping', 'commented'), ('commented', 'many_comments'), ('comment_wrapping', 'many_comments'),
               ('uuid', 'h_pred_lazy'), ('h_pred_lazy', 'h_sub_b'), ('h_pred_lazy', 'h_pred_lazy'),
-              ('many_floats', 'containers'), ('dataclass', 'dataclass'), ('dataclass', 'dataclass2'), ('attrs', 'attrs'),
+              ('many_floats', 'containers'), ('boxed_pretty_repr', 'boxed_pretty_repr'), ('boxed_pretty_repr', 'boxed_pretty_repr2'), ('dataclass', 'dataclass'), ('dataclass', 'dataclass2'), ('attrs', 'attrs'),
               ('ipython_protocol', 'ipython_protocol'), ('h_bad', 'h_bad'), ('h_bad', 'h_unreg'),
               ('containers', 'deep_indent'), ('deep_indent', 'long_str_nested'), ('tiny3', 'deep_indent'), ('h_pred_c', 'h_pred_b'), ('h_pred_b', 'h_pred_c'), ('h_pred_c', 'h_pred'),
               ('h_pred_mixed', 'h_pred_c'), ('h_pred_c', 'h_pred_c'), ('h_memo', 'h_memo'), ('uuid', 'enum'),
@@ -183,6 +183,19 @@ class IPy:
                 p.pretty(x)
 
 
+class Foo:
+    def __init__(self, n):
+        self.n = n
+
+
+class BoxU:
+    def __init__(self, item):
+        self.item = item
+
+    def __repr__(self):
+        return 'Box(%r)' % (self.item,)
+
+
 class HBase2:
     def __init__(self, *a):
         self.a = a
@@ -282,6 +295,12 @@ def setup():
                 ')']))
         return memo['doc']
 
+    Foo.__repr__ = P.pretty_repr
+
+    @register_pretty(Foo)
+    def p_foo(v, ctx):
+        return pretty_call(ctx, Foo, n=v.n)
+
     @register_pretty(HBad)
     def p_bad(v, ctx):
         raise ValueError('harness printer failure')
@@ -339,6 +358,9 @@ def setup():
     add(('many_floats', 'layout', [i / 7 for i in range(150)], {'width': 60}))
     add(('h_pred', 'plain', HPred('p'), {}))
     add(('h_unreg', 'plain', [HUnreg(), 1], {}))
+    foo = Foo(1)
+    add(('boxed_pretty_repr', 'shared', BoxU(foo), {}))
+    add(('boxed_pretty_repr2', 'shared', [BoxU(foo), foo], {}))
     add(('dataclass', 'extras', DPoint(4, 5, ['t']), {}))
     add(('dataclass2', 'extras', [DPoint(1), DPoint(2, 3)], {'width': 20}))
     if APoint:
